@@ -752,9 +752,44 @@ def run_curve(desc, ctx):
                     ctx.note("export:custom_pos_longer_than_default_n_pts_gives_%d_edges_for_%d_vertices" % (len(pl.edges), mm))
             except Exception:
                 pass
+    # history: values and meshes handed out earlier are modified in place by their owner (translate an exported polyline; "+=" on an evaluated
+    # point at t=0 / t=1): the curve must still be the Bernstein polynomial of the control points it was built from
+    if dim in (2, 3):
+        ctx.cls("curve:history:results_modified_in_place")
+        _modify_results_in_place(ctx, lambda: cv.as_polyline(rng.randint(2, 6)), [lambda t=t: cv.evaluate(t) for t in (0.0, 1.0)], M)
+        for tf in (0.0, 1.0, 0.5, rng.random()):
+            ok, val = ctx.call("curve.evaluate:after_results_modified", cv.evaluate, tf, monitor="bernstein")
+            a = _vec(ctx, val, dim, "bernstein", "curve")
+            if a is None:
+                continue
+            diff = R.max_abs_diff(R.bernstein_curve(Pf, tf), a)
+            ctx.check(diff <= 1e-12 * M, "bernstein", "curve", "curve_changed_when_an_earlier_result_was_modified_in_place",
+                      "after an exported polyline / an evaluated end point was modified in place, evaluate(%r) differs from the Bernstein sum of the "
+                      "original control points by %.3g (scale %.3g)" % (tf, diff, M), t=tf, degree=deg, diff=diff)
     if desc.get("sample"):
         ctx.sample({"control_points": P, "checked": "evaluate vs exact Bernstein sum at boundary/denormal/random t; rejection of %d invalid t; "
                     "as_polyline(n) for n in %s" % (len(_invalid_ts()), desc["ns"]), "largest |diff|/scale": worst})
+
+
+def _modify_results_in_place(ctx, export, evaluations, M):
+    """The caller modifies, in place, things the curve / patch handed out: every vertex of an exported mesh is shifted (what transform.translate
+    does) and evaluated end points are overwritten.  Harness-side steps: failures here are not judged."""
+    shift = np.array([3.25, -1.5, 0.75]) * max(M, 1.0)
+    try:
+        mesh = export()
+        for i in range(len(mesh.vertices)):
+            mesh.vertices[i] += shift
+        ctx.obs("bernstein", "history:exported_mesh_shifted_in_place")
+    except Exception as e:
+        ctx.note("history:export_shift_failed:" + type(e).__name__)
+    for ev in evaluations:
+        try:
+            val = ev()
+            if isinstance(val, np.ndarray) and val.dtype.kind == "f":
+                val += shift[:val.shape[0]] if val.ndim == 1 else 1.0
+                ctx.obs("bernstein", "history:evaluated_point_modified_in_place")
+        except Exception as e:
+            ctx.note("history:evaluate_modify_failed:" + type(e).__name__)
 
 
 def _check_polyline_export(ctx, cv, Pf, P, M, dim, n, custom, rng):
@@ -868,6 +903,21 @@ def run_patch(desc, ctx):
     if dim == 3:
         for (n1, n2) in pairs:
             exported = _check_surface_export(ctx, bp, Nf, M, n1, n2, convs)
+    if dim == 3 and convs:
+        ctx.cls("patch:history:results_modified_in_place")
+        _modify_results_in_place(ctx, lambda: bp.as_surface(rng.randint(2, 4), rng.randint(2, 4)),
+                                 [lambda u=u, v=v: bp.evaluate(u, v) for (u, v) in ((0.0, 0.0), (1.0, 0.0), (0.0, 1.0), (1.0, 1.0))], M)
+        for (uf, vf) in ((0.0, 0.0), (1.0, 1.0), (0.0, 1.0), (1.0, 0.0), (0.5, 0.25), (rng.random(), rng.random())):
+            ok, val = ctx.call("patch.evaluate:after_results_modified", bp.evaluate, uf, vf, monitor="bernstein")
+            a = _vec(ctx, val, dim, "bernstein", "patch")
+            if a is None:
+                continue
+            d_in = R.max_abs_diff(R.bernstein_patch(Nf, vf, uf), a)
+            d_out = R.max_abs_diff(R.bernstein_patch(Nf, uf, vf), a)
+            good = ("u_inner" in convs and d_in <= 1e-12 * M) or ("u_outer" in convs and d_out <= 1e-12 * M)
+            ctx.check(good, "bernstein", "patch", "patch_changed_when_an_earlier_result_was_modified_in_place",
+                      "after an exported surface / an evaluated corner was modified in place, evaluate(%r, %r) differs from the tensor Bernstein sum of "
+                      "the original control points (by %.3g / %.3g, scale %.3g)" % (uf, vf, d_in, d_out, M), u=uf, v=vf, degrees=[m, n])
     if desc.get("sample"):
         ctx.sample({"control_net_degrees": [m, n], "first_row": net[0][:3], "checked": "evaluate vs exact tensor Bernstein sum, corners, hull, "
                     "rejection; as_surface%s" % (pairs,), "largest |diff|/scale": worst, "as_surface": exported if dim == 3 else None})
